@@ -2732,30 +2732,52 @@ impl Compiler {
                 value: value_reg,
             });
 
-            // Set reverse mapping for numeric values: EnumName[value] = MemberName
-            // Only for numeric values (not string enums)
-            // We need to check if value is numeric at runtime for mixed enums
-            let is_numeric = match &member.initializer {
-                None => true,
-                Some(init) => {
-                    // Check for numeric literal
-                    matches!(
-                        init,
-                        crate::ast::Expression::Literal(lit) if matches!(lit.as_ref(), crate::ast::Literal { value: crate::ast::LiteralValue::Number(_), .. })
-                    ) ||
-                    // Check for unary minus of numeric literal (e.g., -10)
-                    matches!(
-                        init,
-                        crate::ast::Expression::Unary(unary)
-                            if unary.operator == crate::ast::UnaryOp::Minus
-                            && matches!(
-                                unary.argument.as_ref(),
-                                crate::ast::Expression::Literal(lit) if matches!(lit.as_ref(), crate::ast::Literal { value: crate::ast::LiteralValue::Number(_), .. })
-                            )
-                    )
-                }
+            // Set reverse mapping for numeric values: EnumName[value] = "MemberName".
+            // String members get none. Literals decide statically; for any other initializer
+            // (member references, computed expressions) the value is checked at run time.
+            let is_number_literal = |e: &crate::ast::Expression| {
+                matches!(
+                    e,
+                    crate::ast::Expression::Literal(lit) if matches!(lit.value, crate::ast::LiteralValue::Number(_))
+                )
             };
-            if is_numeric {
+            let statically_numeric = match &member.initializer {
+                None => Some(true),
+                Some(crate::ast::Expression::Literal(lit)) => match lit.value {
+                    crate::ast::LiteralValue::Number(_) => Some(true),
+                    crate::ast::LiteralValue::String(_) => Some(false),
+                    _ => None,
+                },
+                Some(crate::ast::Expression::Unary(unary))
+                    if unary.operator == crate::ast::UnaryOp::Minus
+                        && is_number_literal(unary.argument.as_ref()) =>
+                {
+                    Some(true)
+                }
+                Some(_) => None,
+            };
+            if statically_numeric != Some(false) {
+                let skip_reverse = if statically_numeric.is_none() {
+                    // typeof value === "number"
+                    let type_reg = self.builder.alloc_register()?;
+                    self.builder.emit(Op::Typeof {
+                        dst: type_reg,
+                        src: value_reg,
+                    });
+                    self.builder
+                        .emit_load_string(key_reg, JsString::from("number"))?;
+                    self.builder.emit(Op::StrictEq {
+                        dst: type_reg,
+                        left: type_reg,
+                        right: key_reg,
+                    });
+                    let jump = self.builder.emit_jump_if_false(type_reg);
+                    self.builder.free_register(type_reg);
+                    Some(jump)
+                } else {
+                    None
+                };
+
                 // Load the member name as a string value
                 self.builder.emit_load_string(key_reg, member_name)?;
 
@@ -2765,6 +2787,10 @@ impl Compiler {
                     key: value_reg,
                     value: key_reg,
                 });
+
+                if let Some(jump) = skip_reverse {
+                    self.builder.patch_jump(jump);
+                }
             }
         }
 
